@@ -32,6 +32,13 @@ struct World {
     std::map<std::string, bool> done;
     std::map<std::string, std::string> tryres;
     std::set<std::string> incs;
+    // multi-round mode (spec/Mutex/MutexRounds.tla): header fields "rounds", "foreign", "await", "reuse"
+    bool multi = false, reuse = false;
+    std::map<std::string, int> rounds, bodies;
+    std::set<std::string> foreign;
+    std::map<std::string, cocls::mutex::ownership> slot;   // ownership objects handed to helper threads
+    std::map<std::string, bool> slotfull;
+    std::map<std::string, std::string> publishing;          // thread -> party whose lock() it currently executes
     std::map<std::uint64_t, std::string> node_of;
     std::atomic<long> frames{0};   // operator new calls made while creating coroutine frames
     std::atomic<long> allocs{0};   // every other operator new call made by party threads (library's own)
@@ -45,6 +52,39 @@ static void body(World &w, const std::string &p) {
     vsched::mark("cs");
     w.incs.erase(p);
     w.done[p] = true;
+    w.bodies[p]++;
+}
+
+static thread_local std::string *tl_thread = nullptr;   // name of the running harness thread
+
+// the party announces itself before every lock(): coroutines migrate between threads, and the node a thread is
+// about to publish belongs to the party whose code it executes
+static void announce(World &w, const std::string &p) {
+    alloc_pause np;
+    if (tl_thread) w.publishing[*tl_thread] = p;
+}
+
+// one party's release in multi-round mode: hand the object to the helper thread, or release it here
+static void hand_to_helper(World &w, const std::string &p, cocls::mutex::ownership &own) {
+    w.slot[p] = std::move(own);
+    alloc_pause np;
+    w.slotfull[p] = true;
+}
+
+// multi-round coroutine party: ONE ownership object is reused (move-assigned) in every round; with `reuse` also one
+// awaiter object is co_awaited again in every round
+static cocls::async<void> co_party_rounds(World &w, std::string p, std::string rel, int rounds, bool foreign, bool reuse) {
+    cocls::mutex::ownership own;
+    auto lk = w.mx.lock();
+    for (int r = 0; r < rounds; r++) {
+        announce(w, p);
+        if (reuse) own = co_await lk; else own = co_await w.mx.lock();
+        body(w, p);
+        if (foreign) hand_to_helper(w, p, own);
+        else if (rel == "discard") own.release();
+        else if (rel == "await") co_await own.release();
+        else { cocls::mutex::ownership last(std::move(own)); }     // "dtor": released by the destructor of `last`
+    }
 }
 
 static cocls::async<void> co_party(World &w, std::string p, std::string rel) {
@@ -93,13 +133,18 @@ static std::string name_of(World &w, cocls::awaiter *n) {
     return it == w.node_of.end() ? "unknown" : it->second;
 }
 
+
 static void learn_nodes(World &w) {
-    for (auto &kv : w.kind) {
-        int t = w.tid[kv.first];
+    for (auto &kv : w.tid) {
+        int t = kv.second;
         if (w.sched.parked(t) && !w.sched.pending_after(t) && w.sched.pending(t).op == op_t::cas) {
             const auto &e = w.sched.pending(t);
             const std::uint64_t door = (std::uint64_t) reinterpret_cast<std::uintptr_t>(MProbe::door());
-            if (e.obj == &(w.mx.*MProbe::req_mp()) && e.arg != door && e.arg != 0) w.node_of[e.arg] = kv.first;
+            if (e.obj == &(w.mx.*MProbe::req_mp()) && e.arg != door && e.arg != 0) {
+                // one-round mode: the thread only ever publishes its own party's node; multi-round mode: the party is
+                // announced by the party code itself right before it calls lock() (w.publishing)
+                w.node_of[e.arg] = w.multi ? w.publishing[kv.first] : kv.first;
+            }
         }
     }
 }
@@ -142,9 +187,14 @@ static J project(World &w) {
     J acts = J::map(), done = J::map(), tryres = J::map(), pend = J::map();
     for (auto &kv : w.kind) {
         acts.set(kv.first, w.acts[kv.first]);
-        done.set(kv.first, w.done[kv.first]);
+        if (w.multi) done.set(kv.first, w.bodies[kv.first]); else done.set(kv.first, w.done[kv.first]);
         tryres.set(kv.first, w.tryres[kv.first]);
-        pend.set(kv.first, pend_of(w, kv.first));
+    }
+    for (auto &kv : w.tid) pend.set(kv.first, pend_of(w, kv.first));
+    if (w.multi) {
+        J slot = J::map();
+        for (auto &p : w.foreign) slot.set(p, w.slotfull[p] ? "full" : "empty");
+        m.set("slot", slot);
     }
     m.set("acts", acts);
     m.set("done", done);
@@ -192,23 +242,35 @@ static void run(const Scenario &sc, Reporter &rep) {
     }
     w.sched.yield_after = true;
     if (w.sched.record_motable) cocls_verif::motable::get().label(&(w.mx.*MProbe::req_mp()), sizeof(void *), "mutex.requests");
+    w.multi = sc.hdr.has("rounds");
+    if (w.multi) {
+        w.reuse = sc.hdr.at("reuse").as_bool(false);
+        for (auto &kv : sc.hdr.at("rounds").m) w.rounds[kv.first] = (int) kv.second.as_int(1);
+        for (auto &x : sc.hdr.at("foreign").l) { w.foreign.insert(x.as_str()); w.slot[x.as_str()]; w.slotfull[x.as_str()] = false; }
+        for (auto &kv : w.kind) { w.bodies[kv.first] = 0; w.publishing[kv.first] = kv.first; }
+        for (auto &f : w.foreign) w.publishing["h" + f] = "h" + f;
+    }
     w.sched.install();
     for (auto &kv : w.kind) {
         std::string p = kv.first, kind = kv.second, rel = w.rel[p];
-        w.tid[p] = w.sched.spawn([pw, p, kind, rel] {
+        int rounds = w.multi ? w.rounds[p] : 1;
+        bool foreign = w.foreign.count(p) != 0, multi = w.multi, reuse = w.reuse;
+        w.tid[p] = w.sched.spawn([pw, p, kind, rel, rounds, foreign, multi, reuse] {
             World &w = *pw;
+            std::string myname = p;
+            tl_thread = &myname;
             (void) cocls::coro_queue::queue_impl::instance._queue.size();
             long n0 = alloc_stats::news;
             if (kind == "co") {
-                auto c = co_party(w, p, rel);      // the coroutine frame: the user's allocation
+                auto c = multi ? co_party_rounds(w, p, rel, rounds, foreign, reuse) : co_party(w, p, rel);      // the coroutine frame: the user's allocation
                 w.frames += alloc_stats::news - n0;
                 n0 = alloc_stats::news;
                 c.detach();
-            } else if (kind == "bl") {
+            } else if (kind == "bl" && !multi) {
                 cocls::mutex::ownership own(w.mx.lock());
                 body(w, p);
                 if (rel == "discard") own.release();
-            } else if (kind == "try") {
+            } else if (kind == "try" && !multi) {
                 cocls::mutex::ownership own = w.mx.try_lock();
                 if (own) {
                     w.tryres[p] = "true";
@@ -218,6 +280,51 @@ static void run(const Scenario &sc, Reporter &rep) {
                     w.tryres[p] = "false";
                     w.done[p] = true;
                 }
+            } else if (kind == "bl") {
+                cocls::mutex::ownership own;
+                auto lk = w.mx.lock();
+                for (int r = 0; r < rounds; r++) {
+                    announce(w, p);
+                    if (reuse) own = lk.wait(); else own = cocls::mutex::ownership(w.mx.lock());
+                    body(w, p);
+                    if (foreign) hand_to_helper(w, p, own);
+                    else if (rel == "discard") own.release();
+                    else { cocls::mutex::ownership last(std::move(own)); }
+                }
+            } else if (kind == "try") {
+                cocls::mutex::ownership own;
+                for (int r = 0; r < rounds; r++) {
+                    own = w.mx.try_lock();
+                    if (own) {
+                        { alloc_pause np; w.tryres[p] = "true"; }
+                        body(w, p);
+                        if (rel == "discard") own.release();
+                        else { cocls::mutex::ownership last(std::move(own)); }
+                    } else {
+                        alloc_pause np;
+                        w.tryres[p] = "false";
+                    }
+                }
+            }
+            w.allocs += alloc_stats::news - n0;
+        });
+    }
+    // helper threads: release the ownership objects handed over by the parties in "foreign", on their own thread
+    for (auto &f : w.foreign) {
+        std::string p = f, rel = w.rel[p];
+        int rounds = w.rounds[p];
+        w.tid["h" + p] = w.sched.spawn([pw, p, rel, rounds] {
+            World &w = *pw;
+            std::string myname = "h" + p;
+            tl_thread = &myname;
+            (void) cocls::coro_queue::queue_impl::instance._queue.size();
+            long n0 = alloc_stats::news;
+            for (int r = 0; r < rounds; r++) {
+                vsched::mark("hrel");
+                cocls::mutex::ownership o(std::move(w.slot[p]));
+                { alloc_pause np; w.slotfull[p] = false; }
+                if (rel == "discard") o.release();
+                // otherwise released by the destructor of `o`
             }
             w.allocs += alloc_stats::news - n0;
         });
@@ -249,6 +356,12 @@ static void run(const Scenario &sc, Reporter &rep) {
     if (!drained && !bad) rep.diverge(sc.steps.size() - 1, "deadlock: threads blocked at the end of the schedule got=" + project(w).dump());
     if (drained && !bad) {
         for (auto &kv : w.kind) {
+            if (w.multi) {
+                if (kv.second != "try" && (w.acts[kv.first] != w.rounds[kv.first] || w.bodies[kv.first] != w.rounds[kv.first])) {
+                    rep.diverge(sc.steps.size() - 1, "party " + kv.first + " not activated exactly once per round"); break;
+                }
+                continue;
+            }
             if (!w.done[kv.first]) { rep.diverge(sc.steps.size() - 1, "party " + kv.first + " never finished its round"); break; }
             if (kv.second != "try" && w.acts[kv.first] != 1) { rep.diverge(sc.steps.size() - 1, "party " + kv.first + " not activated exactly once"); break; }
         }
